@@ -101,7 +101,9 @@ def mapCase (id : String) (payload : List Sexp) : List String :=
   | none => err id "bad-map-case"
   | some c =>
     match c.prop with
-    | "C05" => both id (obs15 c.inp ++ obsRT c.inp) (spec15 c.inp ++ specRT c.inp) (region05 c.inp)   -- obs05 + write counts + round trip
+    | "C05" => both id (obs15 c.inp ++ obsRT c.inp ++ obsPart c.inp c.srcSlots c.destSlots c.masks c.fmasks)
+                 (spec15 c.inp ++ specRT c.inp ++ specPart c.inp c.srcSlots c.destSlots c.masks c.fmasks)
+                 (region05 c.inp)   -- obs05 + write counts + round trip + partially nil chains
     | "C01" => both id (obs01 c.inp) allOk (region01 c.inp)
     | "C15" => both id (obs15 c.inp) (spec15 c.inp) (region15 c.inp)
     | "C09" => both id (obs09 c.inp c.srcSlots c.destSlots c.masks c.fmasks)
